@@ -41,6 +41,8 @@ THEOREMS = [
     "XalanModel.Props.C19.ledger_replay_agrees_with_primitives",
     "XalanModel.Props.C19.vector_step_contained",
     "XalanModel.Props.C19.vector_balanced_and_failure_contained",
+    "XalanModel.Props.C19.vector_alloc_elems_balanced_and_failure_contained",
+    "XalanModel.Props.C19.vector_size_before_loop_counterexample",
     "XalanModel.Props.C19.vector_strong_guarantee",
     "XalanModel.Props.C19.list_step_contained",
     "XalanModel.Props.C19.list_balanced_and_failure_contained_partial",
@@ -59,8 +61,9 @@ THEOREMS = [
 CORPUS_DIR = os.path.join(common.ROOT, "gen", "corpus", "c19")
 
 # (name, api) — fixed scenario set: known findings are keyed by call site, so the inputs are not randomised
-QUICK_SCENARIOS = [("s1", "split"), ("s2", "direct"), ("s3", "split"), ("s4", "direct"), ("s7", "split"), ("s8", "split")]
-THOROUGH_SCENARIOS = QUICK_SCENARIOS + [("s5", "split"), ("s6", "split"), ("s2", "split"), ("s5", "direct")]
+QUICK_SCENARIOS = [("s1", "split"), ("s2", "direct"), ("s3", "split"), ("s4", "direct"), ("s7", "split"), ("s8", "split"),
+                   ("s9", "split")]   # nested include/import chain, keys, decimal-formats, attribute-sets, document(), EXSLT
+THOROUGH_SCENARIOS = QUICK_SCENARIOS + [("s5", "split"), ("s6", "split"), ("s2", "split"), ("s5", "direct"), ("s9", "direct")]
 PHASES = ["ctor", "compile", "parse", "transform", "destroy"]
 
 
@@ -180,6 +183,30 @@ def gen_arena_ops(r, n):
     return ops
 
 
+def gen_bvec_ops(r, n):
+    """XalanVector<Boxed>: every element copy is a refusable allocation (grow / reserve / copy constructor / resize)"""
+    ops, length = [], 0
+    for _ in range(n):
+        k = r.weighted([("push", 9), ("reserve", 3), ("pop", 2), ("clear", 1), ("resize", 3), ("copy", 3)])
+        if k == "push":
+            ops.append("bv push %d" % r.range(0, 60)); length += 1
+        elif k == "reserve":
+            ops.append("bv reserve %d" % r.range(0, length + 6))
+        elif k == "pop":
+            if length == 0:
+                continue
+            ops.append("bv pop"); length -= 1
+        elif k == "clear":
+            ops.append("bv clear"); length = 0
+        elif k == "resize":
+            n2 = r.range(0, length + 4)
+            ops.append("bv resize %d %d" % (n2, r.range(0, 9))); length = n2
+        else:
+            ops.append("bv copy")
+    ops.append("bv destroy")
+    return ops
+
+
 def gen_deque_ops(r, n):
     ops = ["d new %d" % r.range(1, 3)]
     for _ in range(n):
@@ -190,6 +217,11 @@ def gen_deque_ops(r, n):
 
 
 CONTAINER_CORPUS = [
+    # refusal INSIDE the element-copy loop of the append path (copy constructor used by grow/reserve): only the constructed
+    # prefix may be destroyed (seeded break: m_size set before the loop)
+    (7, ["bv push 1", "bv push 2", "bv push 3", "bv destroy"]),
+    (8, ["bv push 1", "bv push 2", "bv push 3", "bv destroy"]),
+    (10, ["bv push 1", "bv push 2", "bv push 3", "bv copy", "bv reserve 9", "bv resize 6 5", "bv destroy"]),
     # XalanDeque::pushNewIndexBlock: XalanConstruct refused after the null placeholder was pushed
     (2, ["d new 2", "d push 1", "d size", "d destroy"]),
     (6, ["d new 1", "d push 1", "d push 2", "d push 3", "d destroy"]),
@@ -231,11 +263,15 @@ def container_part(ctx, r, model):
     seqs = [(k, ops) for k, ops in CONTAINER_CORPUS]
     base = []
     for i in range(nseq):
-        ops = (gen_list_ops, gen_vec_ops, gen_arena_ops, gen_deque_ops)[i % 4](r, r.range(1, maxops))
+        ops = (gen_list_ops, gen_vec_ops, gen_arena_ops, gen_deque_ops, gen_bvec_ops)[i % 5](r, r.range(1, maxops))
         base.append(ops)
     for ops in base:
         # every refusal index: an op makes at most 3 requests (+1 sentinel)
-        for k in range(0, 3 * len(ops) + 3):
+        top = 3 * len(ops) + 3
+        if ops[0].startswith("bv"):
+            top = 4 + sum(6 + 2 * j for j in range(len(ops)))      # growth copies every element again
+            top = min(top, 120)
+        for k in range(0, top):
             seqs.append((k, ops))
     lines, owner = ["cfg %d %d %d %d" % (clear_guard, next_init, skip_pending, pop_null)], [-1]
     for si, (k, ops) in enumerate(seqs):
@@ -269,11 +305,13 @@ def container_part(ctx, r, model):
         word = iv.split()[0] if iv.split() else ""
         if iv != mv:
             seen_bad.add(si)      # one report per log
-        if word == "ub" and not (o.startswith("l pop") or o == "v pop" or o.startswith("a destroy")):
+        if word == "ub" and not (o.startswith("l pop") or o == "v pop" or o == "bv pop" or o.startswith("a destroy")):
             seen_bad.add(si)
             ctx.fail("list.ub-after-throwing-copy: " + text if o == "l destroy" else
                      "arena.ub-uncommitted-slot: " + text if o == "a free" else
-                     "deque.null-block-after-refused-construct: " + text if o.startswith("d ") else "container.ub[%s]: %s" % (o, text),
+                     "deque.null-block-after-refused-construct: " + text if o.startswith("d ") else
+                     "bvec.ub-unconstructed-elements[%s]: %s" % (o.split()[1], text) if o.startswith("bv ") else
+                     "container.ub[%s]: %s" % (o, text),
                      "the real template dereferences a wild pointer / crashes (child process died) at `%s`" % o, [("new %d" % k)] + ops)
         elif f.get("bad", "0") != "0":
             seen_bad.add(si)
@@ -288,7 +326,7 @@ def container_part(ctx, r, model):
         nontriv = k > 0 and len(ops) > 2
         ctx.case(nontrivial_key=("c", k, " ".join(ops)) if nontriv else None,
                  sample={"failAt": k, "ops": ops} if si in (len(CONTAINER_CORPUS), len(CONTAINER_CORPUS) + 7) else None,
-                 cls="container:" + {"l": "list", "a": "arena", "d": "deque"}.get(ops[0][0], "vec"))
+                 cls="container:" + ("bvec" if ops[0].startswith("bv") else {"l": "list", "a": "arena", "d": "deque"}.get(ops[0][0], "vec")))
     ctx.extra["container_disagreements"] = disagreements[:5]
     ctx.oblige("correspondence: XalanList<Boxed>/XalanVector<long>/XalanConstruct (real templates, failing manager) = Lean model "
                "on every op log and every refusal index", "correspondence", agree, str(disagreements[:2]))
@@ -373,7 +411,9 @@ def api_part(ctx, r, model):
                         # absorbed: acceptable only if the result is the one of the clean run
                         stats["absorbed"] += 1
                         if f.get("outhash") != c["outhash"] and ph in ("transform",):
-                            ctx.fail("api.silent-wrong-output[%s] %s" % ("|".join(f.get("failsite", "?").split("|")[:2]), where),
+                            frames = f.get("failsite", "?").split("|")
+                            via = [x for x in frames if x.startswith("FunctionDocument::")]
+                            ctx.fail("api.silent-wrong-output[%s] %s" % ("via " + via[0] if via else "|".join(frames[:2]), where),
                                      "refused allocation swallowed and a different result produced", inp)
                     else:
                         ctx.hist["surfaced-as:" + str(res)] = ctx.hist.get("surfaced-as:" + str(res), 0) + 1
